@@ -47,13 +47,27 @@ def _verify_target(args):
             seen[key] = seen.get(key, 0) + 1
             if idx % nshards != shard: continue
             if only is not None and ("%s#%d" % (key, seen[key])) not in only: continue
+            ob["id"] = "%s#%d" % (key, seen[key])
             discharge(ob, quick=(tier == "quick"), retry=(only is not None))
             rec = {"id": "%s#%d" % (key, seen[key]), "key": key, "target": ctarget, "kind": ob["kind"], "label": ob["label"],
                    "clause": ob.get("text"), "status": ob["status"], "backend": ob.get("backend"), "time_s": ob.get("time_s"),
                    "path": "/".join(ob["trace"]), "line": ob.get("line")}
+            if ob.get("hint_out"): rec["hint_out"] = ob["hint_out"]
+            if ob["status"] != "proved" and ob.get("failed_conjunct"): rec["failed_conjunct"] = ob["failed_conjunct"][:1500]
             if ob["status"] == "fault":
                 out["faults"].append("%s: %s" % (rec["id"], ob.get("why")))
-            if ob["status"] == "refuted":
+            if ob["status"] == "undecided" and ob.get("_model") is not None:
+                # candidate from the windowed search: a counterexample only if it reproduces on the real code
+                try:
+                    from pyvc import concretize
+                    obk = dict(ob)
+                    rp = concretize.replay(reg, repo, c, obk)
+                    if rp and rp.get("reproduced") is True:
+                        ob["status"] = rec["status"] = "refuted"; rec["model"] = ob.get("candidate_model"); rec["replay"] = rp
+                        rec["backend"] = (rec.get("backend") or "") + "+replayed-on-real-code"
+                except Exception as e:
+                    rec["replay_error"] = "%s: %s" % (type(e).__name__, e)
+            elif ob["status"] == "refuted":
                 rec["model"] = ob.get("model")
                 try:
                     from pyvc import concretize
